@@ -141,6 +141,52 @@ def _gen_legal_client(r, scale_exp, family):
     return {"kind": "design", "die": die, "net": nl, "edge": None, "ops": ops}
 
 
+def _gen_twin(r, src):
+    """Same die, same module geometry; module kinds are permuted (fixed <-> hard), and the script loads an allocation made
+    of exactly the die-sized grid the other design's cells come from."""
+    die = dict(src["die"])
+    nl = src["net"]
+    mods = []
+    for m in nl["modules"]:
+        m = dict(m)
+        if m["kind"] == "fixed" and r.chance(0.7):
+            m["kind"] = "hard"
+        elif m["kind"] == "hard" and r.chance(0.3):
+            m["kind"] = "fixed"
+            m.pop("flip", None)
+        mods.append(m)
+    # an allocation whose cells are the unit... the same guillotine cells as a plain grid over the die
+    nx, ny = die["nx"], die["ny"]
+    gx, gy = r.choice([1, 2, nx]), r.choice([1, 2, ny])
+    xs = sorted({round(i * nx / gx) for i in range(gx + 1)})
+    ys = sorted({round(j * ny / gy) for j in range(gy + 1)})
+    cells = []
+    names = [m["name"] for m in mods if m["kind"] == "soft"] or ["M0"]
+    for i in range(len(xs) - 1):
+        for j in range(len(ys) - 1):
+            cells.append({"box": (xs[i], ys[j], xs[i + 1], ys[j + 1]), "alloc": {r.choice(names): r.choice([0.3, 0.5, 0.9])},
+                          "depth": 0, "fixed": False})
+    for m in mods:  # and one cell per rectangle of a fixed/hard module of the source design
+        if m.get("boxes") and len(cells) < 30:
+            for b in m["boxes"][:2]:
+                if all(designs.overlap_area(b, c["box"]) == 0 for c in cells):
+                    cells.append({"box": tuple(b), "alloc": {names[0]: 0.4}, "depth": 0, "fixed": False})
+    alloc = {"family": die["family"], "scale_exp": die["scale_exp"], "nx": nx, "ny": ny, "cells": cells}
+    via = lambda: r.weighted([("tree", 3), ("text", 2), ("file", 2)])
+    ops = [{"op": "load_net", "via": via()}, {"op": "load_die", "via": via(), "with_net": r.chance(0.7)}]
+    for _ in range(r.randint(2, 5)):
+        ops.append(r.choice([{"op": "init_alloc", "zero": False}, {"op": "refine", "t": r.choice([0.5, 0.9, 1.0]), "levels": 1},
+                             {"op": "stog"}, {"op": "griddify"}, {"op": "load_alloc", "alloc": alloc, "via": via()},
+                             {"op": "split", "r": 2, "n": r.randint(1, 6)}, {"op": "uniform"}]))
+    # the source design loads the very same allocation document and runs the initial allocation of a netlist whose fixed
+    # module covers one of its cells (which flags that cell of the receiver)
+    if r.chance(0.7):
+        src["ops"] = src["ops"] + [{"op": "load_alloc", "alloc": alloc, "via": via()}, {"op": "alloc_init", "cell": r.below(30)}]
+        ops += [{"op": "load_alloc", "alloc": alloc, "via": via()}, {"op": "refine", "t": r.choice([0.5, 0.9, 1.0]), "levels": 1},
+                {"op": "uniform"}]
+    return {"kind": "design", "die": die, "net": dict(nl, modules=mods), "edge": None, "ops": ops}
+
+
 def _gen_reject_client(r, scale_exp, family):
     """A client whose only operation is the load of an ill-formed document that is rejected after the loader has already
     touched process-wide state (hard module with grossly overlapping rectangles; die region sticking out)."""
@@ -167,6 +213,19 @@ def gen_case(r, index, tier):
             clients.append(_gen_sat_client(r, nvars))
         else:
             clients.append(_gen_reject_client(r, scale_exp, family))
+    # twins: two clients whose designs coincide geometrically (same lattice, same cells / rectangles) but play different
+    # roles - what is fixed in one is ordinary in the other - so that anything cached or shared by *value* of a rectangle
+    # descriptor between designs shows
+    if r.chance(0.35):
+        ds = [i for i, c in enumerate(clients) if c["kind"] == "design"]
+        if ds:
+            src = clients[r.choice(ds)]
+            twin = _gen_twin(r, src)
+            if len(clients) < 4:
+                clients.append(twin)
+            else:
+                clients[r.choice([i for i in range(len(clients)) if clients[i] is not src])] = twin
+            nclients = len(clients)
     # seeded interleaving
     pos = [0] * nclients
     live = list(range(nclients))
@@ -374,6 +433,18 @@ class _DesignClient:
             desc = _norm_alloc(o["alloc"])
             self.alloc = A.Allocation(self._src(designs.alloc_tree(desc), o["via"], "alloc"))
             return sem.alloc_sem(self.alloc)
+        if k == "alloc_init":
+            a = self.alloc
+            if a is None:
+                return "skipped"
+            cj = a.allocations[o["cell"] % len(a.allocations)].rect
+            mods = {}
+            for m in sorted({m for x in a.allocations for m in x.alloc}):
+                if a.area(m) > 0:
+                    mods[m] = {"area": a.area(m), "center": [a.center(m).x, a.center(m).y]}
+            mods["FY"] = {"fixed": True, "rectangles": [[cj.center.x, cj.center.y, cj.shape.w, cj.shape.h]]}
+            self.alloc = a.initial_allocation(N.Netlist({"Modules": mods, "Nets": []}))
+            return sem.alloc_sem(self.alloc)
         if k in ("refine", "uniform", "griddify", "must"):
             a = self.alloc
             if a is None:
@@ -439,7 +510,9 @@ class _DesignClient:
 
     def _verdicts(self):
         mw = self.model.gekko
-        out = []
+        out = [["variables", [v.data["name"] for v in mw.variable_list]],
+               ["objective", float(mw.objective.evaluate())],
+               ["dif_cost", float(_evaluate(mw.dif_cost_objective()))]]
         for group in sorted(mw.constraints):
             for eq in mw.constraints[group]:
                 out.append([group, eq.name, bool(eq.is_equation_met())])
@@ -447,6 +520,10 @@ class _DesignClient:
             for ns, eq in macro.get_constraints(mw):
                 out.append([ns, eq.name, bool(eq.is_equation_met())])
         return out
+
+
+def _evaluate(x):
+    return x.evaluate() if hasattr(x, "evaluate") else x
 
 
 def _norm_alloc(a):
